@@ -131,6 +131,37 @@ WIDENED = {
  "C17-15": "blind miss: cancellation while a CRL body is being read, with a Close that takes 30 ms",
  "C19-13": "blind miss: an expiry at / before the signing time next to AuthenticSigningTime",
  "C20-14": "blind miss: signing agents with control characters",
+ # round 6, blind again (frozen harness of 2026-09-26 17:25 UTC); 28 of 58 at first contact
+ "C01-16": "blind miss: unsigned top-level members named like the library's internal structures (protectedHeader ...), any letter case",
+ "C01-18": "blind miss: the caller scribbles over the bytes Content() / Verify() returned, then verifies again",
+ "C02-17": "blind miss: leaves certified by an RSA CA with RSASSA-PSS under a hash other than the leaf key's",
+ "C05-17": "blind miss: two distribution points, one of them serving a list whose issuingDistributionPoint scope excludes the certificate",
+ "C05-18": "blind miss in C05 (C18, which owns the cache-expiry rule, was not in the blind set and reports it)",
+ "C06-17": "blind miss: a base CRL whose freshest-CRL locations are all of unsupported schemes",
+ "C06-18": "blind miss: several URIs inside ONE DistributionPoint (hand-built extension)",
+ "C07-16": "blind miss: leaf certificates with a non-critical key usage among C07's chain variants",
+ "C07-17": "blind miss: chains holding a certificate named like its issuer (not self-signed)",
+ "C07-18": "blind miss: unknown members at the top level / in the unprotected header of a JWS",
+ "C08-16": "not claimed: whether a 2047-bit RSA modulus in a 256-byte key is 'RSA 2048' is not settled by any statement",
+ "C09-17": "blind miss: 429 / 503 replies with Retry-After in both forms",
+ "C10-16": "blind miss: the invalidity-date rule reached through the OCSP-to-CRL fallback",
+ "C10-18": "blind miss: authentic signing times with fractions of a second next to the invalidity date",
+ "C11-17": "blind miss: OCSP answers with several SingleResponse entries (hand-assembled)",
+ "C11-18": "blind miss: responder URLs with a query component",
+ "C12-16": "blind miss: an 'unauthorized' / 'try later' error reply from a responder that is not the last",
+ "C13-16": "blind miss: extras whose names look like struct tags (\"-\", \",omitempty\" ...)",
+ "C13-17": "blind miss in C13 (two-request histories with a failing timestamp belong to C20, which reports it)",
+ "C14-16": "blind miss: RSA leaf keys of 256 / 384 bits in the catalogue",
+ "C14-17": "blind miss: an unknown critical extension on the leaf",
+ "C15-16": "blind miss: a TSA root that names itself as issuer under a SHA-1 label",
+ "C15-17": "blind miss: a TSA leaf with an empty subject name, reported Unknown",
+ "C15-18": "blind miss: an issuing TSA CA confined to code signing by its extended key usage",
+ "C17-17": "blind miss: twelve recovered panics in a row on one validator, then a healthy call",
+ "C19-16": "blind miss: signing times outside the validity of the matching trusted certificate",
+ "C19-17": "blind miss: the error class is read through the error chain (errors.As), not by type assertion",
+ "C19-18": "blind miss: a twin of a trusted certificate that differs in the signature value only",
+ "C20-17": "blind miss: JWS content types without a slash",
+ "C20-18": "blind miss: one request object refilled between calls; a failing timestamp between two signs",
 }
 rows = []
 for d in sorted(glob.glob("/verif/seeded/*/meta.json"), key=lambda p: (p.split("/")[-2].split("-")[0], int(p.split("/")[-2].split("-")[1]))):
@@ -147,4 +178,14 @@ for d in sorted(glob.glob("/verif/seeded/*/meta.json"), key=lambda p: (p.split("
 print("| change | what was changed | reported by (quick tier) | workload widened (miss: after a first miss; desc: on reading the description) |")
 print("|---|---|---|---|")
 print("\n".join(rows))
-print("\n%d changes kept." % len(rows))
+own = neigh = none = 0
+for d in glob.glob("/verif/seeded/*/meta.json"):
+    m = json.load(open(d)); prop = d.split("/")[-2].split("-")[0]
+    cb = m.get("caught_by", [])
+    if prop in cb:
+        own += 1
+    elif cb:
+        neigh += 1
+    else:
+        none += 1
+print("\n%d changes kept: %d reported by their own property's check, %d only by a neighbouring check, %d by none." % (len(rows), own, neigh, none))
